@@ -61,22 +61,26 @@ func NewValidatorSet(vals []*Validator) *ValidatorSet {
 
 // TODO: mind the overflow when times and votingPower shares too large.
 func (valSet *ValidatorSet) IncrementAccum(times int64) {
-	// Add VotingPower * times to each validator and order into heap.
+	// Select one proposer at a time: a replica that skips rounds (times > 1)
+	// must end up with the same accums and the same proposer as a replica
+	// that went through every round (times x IncrementAccum(1)).
+	for i := int64(0); i < times; i++ {
+		valSet.incrementAccumOnce()
+	}
+}
+
+func (valSet *ValidatorSet) incrementAccumOnce() {
+	// Add VotingPower to each validator and order into heap.
 	validatorsHeap := gcmn.NewHeap()
 	for _, val := range valSet.Validators {
-		val.Accum += int64(val.VotingPower) * int64(times) // TODO: mind overflow
+		val.Accum += int64(val.VotingPower) // TODO: mind overflow
 		validatorsHeap.Push(val, accumComparable(val.Accum))
 	}
 
-	// Decrement the validator with most accum, times times.
-	for i := 0; i < int(times); i++ {
-		mostest := validatorsHeap.Peek().(*Validator)
-		if i == int(times-1) {
-			valSet.proposer = mostest
-		}
-		mostest.Accum -= int64(valSet.TotalVotingPower())
-		validatorsHeap.Update(mostest, accumComparable(mostest.Accum))
-	}
+	// Decrement the validator with most accum.
+	mostest := validatorsHeap.Peek().(*Validator)
+	valSet.proposer = mostest
+	mostest.Accum -= int64(valSet.TotalVotingPower())
 }
 
 func (valSet *ValidatorSet) Copy() *ValidatorSet {
